@@ -144,6 +144,14 @@ fn payload_attrs(pay: &str, seed: u64) -> Vec<Box<dyn AttributeWrite>> {
         }
         return v;
     }
+    if let Some(n) = pay.strip_prefix("pmany").and_then(|x| x.parse::<u16>().ok()) {
+        // many small attributes in front of whatever seals the message
+        for i in 0..n {
+            let val: Vec<u8> = (0..(i % 5)).map(|_| rng.gen()).collect();
+            v.push(Box::new(RawAttribute::new_owned(AttributeType::new(0xc100 + i), val.into_boxed_slice())));
+        }
+        return v;
+    }
     v.push(Box::new(Software::new(&format!("verif {pay} {}", rng.gen::<u16>())).unwrap()));
     if rng.gen_bool(0.5) {
         v.push(Box::new(Priority::new(rng.gen())));
